@@ -165,7 +165,8 @@ Theorem C09_too_early_grid : forall availMS atoMS nowMS, 0 < atoMS ->
 Proof. exact tooEarly_spec. Qed.
 Print Assumptions C09_too_early_grid.
 
-(** The request guard of chunked mode (6ca1ef6, answered 400 by the handler before anything else):
+(** The request guard of chunked mode in its first form (6ca1ef6, float comparison of the unrounded
+    offset; trees before f0e7b4c), answered 400 by the handler before anything else:
     refused exactly when the offset is negative, infinite or not below the segment duration; a
     request that passes it has a chunk duration >= 0 (the offset rounded to ms as the code does),
     positive as soon as the rounded offset leaves one tick.  The theorems above take [0 < C] as a
@@ -184,6 +185,27 @@ Theorem C09_guard_chunkdur : forall a segDurMS ts,
   (1000 <= (segDurMS - roundMilli a) * ts -> 0 < chunkDurOf segDurMS (roundMilli a) ts).
 Proof. exact guard_chunkdur. Qed.
 Print Assumptions C09_guard_chunkdur.
+
+(** Since f0e7b4c the guard compares the offset rounded to milliseconds: every accepted chunked
+    request has a chunk duration of at least one millisecond ([SegmentDurMS - atoMS >= 1], at
+    least timescale/1000 ticks, positive for timescales >= 1000), so the hypothesis [0 < C] of the
+    chunking theorems is established by the guard; offsets below 0, infinite or not below the
+    segment duration are refused, offsets up to half a millisecond below it as well. *)
+Theorem C09_guard_rounded_chunkdur : forall a segDurMS ts,
+  chunkGuardRounded (Some a) segDurMS = true -> 0 < ts ->
+  0 <= roundMilli a /\ 1 <= segDurMS - roundMilli a /\
+  ts / 1000 <= chunkDurOf segDurMS (roundMilli a) ts /\
+  (1000 <= ts -> 0 < chunkDurOf segDurMS (roundMilli a) ts).
+Proof. exact guard_rounded_chunkdur. Qed.
+Print Assumptions C09_guard_rounded_chunkdur.
+
+Theorem C09_guard_rounded : forall segDurMS,
+  chunkGuardRounded None segDurMS = false /\
+  (forall a, a < 0 -> chunkGuardRounded (Some a) segDurMS = false) /\
+  (forall a, segDurMS * 1000 <= a -> chunkGuardRounded (Some a) segDurMS = false) /\
+  (forall a, 0 <= a -> a + 500 < segDurMS * 1000 -> chunkGuardRounded (Some a) segDurMS = true).
+Proof. exact guard_rounded_refuses. Qed.
+Print Assumptions C09_guard_rounded.
 
 (** chunkSegment cannot fail or panic, whatever the chunk duration (repair 1ce6842; before it a
     chunk duration of 0 - availabilityTimeOffset equal to the segment duration - divided by zero). *)
